@@ -128,8 +128,28 @@ func noPins() pins { return pins{fscod: -1, acmod: -1, lfe: -1, real: -1, incl: 
 
 var grid []pins
 
+// tailGrid holds deterministic cases added after the harness was first calibrated. They run
+// at the END of the case range (tailStart..), so the indices, and with them the PRNG draws, of
+// all earlier cases stay what they were.
+var tailGrid []pins
+var tailStart int
+
+// threeCharOddTags are 3-character tags that are NOT three lower-case letters: the packed mdhd
+// field cannot carry them as supplied, so they must go to elng like any other tag.
+var threeCharOddTags = []string{"ENG", "sWe", "a1b", "e-n"}
+
 func buildGrid() {
 	grid = nil
+	tailGrid = nil
+	k2 := 0
+	for _, m := range mediaTypes {
+		for _, l := range threeCharOddTags {
+			p := noPins()
+			p.n, p.media, p.lang, p.ts, p.hasTS = 1, m, l, timescales[k2%len(timescales)], true
+			k2++
+			tailGrid = append(tailGrid, p)
+		}
+	}
 	// every media type x every language, timescale cycling
 	k := 0
 	for _, m := range mediaTypes {
@@ -758,6 +778,9 @@ func genHistory(r *runner.Rand, idx int) history {
 	h := history{Class: "random"}
 	if idx < len(grid) {
 		pn = grid[idx]
+		h.Class = "grid"
+	} else if tailStart > 0 && idx >= tailStart && idx-tailStart < len(tailGrid) {
+		pn = tailGrid[idx-tailStart]
 		h.Class = "grid"
 	}
 	n := pn.n
